@@ -301,7 +301,7 @@ def correspondence(chk, records, name='sess', chunk=6):
     for rec in records:
         for e in 'AB':
             terms.append(rec.runner.model_term(e))
-    results = chk.coq_eval(name, IMPORTS, terms, 'id', chunk=chunk, timeout=1200)
+    results = chk.coq_eval(name, IMPORTS, terms, 'id', chunk=chunk, timeout=1200, prelude=TC.PRELUDE)
     diffs = []
     idx = 0
     for rec in records:
